@@ -5,7 +5,7 @@
    check runs against the implementation. *)
 From Coq Require Import ZArith QArith Qcanon List Reals Ranalysis1.
 From DV Require Import Base.Field Base.LinAlg Base.RInst Base.QcInst Model.BSplineBase Gen.BSpline Model.BSpline
-  Proofs.C14Weights Proofs.C14Ctrl Proofs.C14Place Proofs.C14Eval Proofs.C14Subdiv Proofs.C14Real.
+  Proofs.C14Weights Proofs.C14Ctrl Proofs.C14Place Proofs.C14Eval Proofs.C14Subdiv Proofs.C14SubdivND Proofs.C14Real.
 Import ListNotations.
 Local Open Scope fld_scope.
 
@@ -210,6 +210,38 @@ Proof.
   |exact (fun x Hx => refine_keeps_samples K Kf Kc s m c x Hs Hx Hc)].
 Qed.
 Print Assumptions C14_refine_preserves.
+
+(* the same in 2-D and 3-D, for refinement along any one axis (refinement along several axes is the composition):
+   on the refined image grid the refined coefficient tensor evaluates the old tensor-product spline (old coefficients,
+   stride doubled along that axis), all derivative orders, all image sizes and strides *)
+Theorem C14_refine_preserves_2d :
+  forall (K : fld), is_field K -> char0 K ->
+  forall (dx dy sx sy mx my : nat) (c : list (list K)) (x y : nat),
+  (1 <= sx)%nat -> (1 <= sy)%nat -> (1 <= mx)%nat -> (1 <= my)%nat ->
+  (length c = ctrl_size my sy /\ forall j, (j < ctrl_size my sy)%nat -> length (nth j c []) = ctrl_size mx sx) ->
+  ((x < 2 * mx - 1)%nat -> (y < my)%nat ->
+     pow2 dx * ev2_at dx dy sx sy (along_x2 (refine1 sx mx) c) y x = ev2_at dx dy (2 * sx) sy c y x) /\
+  ((x < mx)%nat -> (y < 2 * my - 1)%nat ->
+     pow2 dy * ev2_at dx dy sx sy (along_y2 (refine1 sy my) c) y x = ev2_at dx dy sx (2 * sy) c y x).
+Proof. exact ffd_refine_2d. Qed.
+Print Assumptions C14_refine_preserves_2d.
+
+Theorem C14_refine_preserves_3d :
+  forall (K : fld), is_field K -> char0 K ->
+  forall (dx dy dz sx sy sz mx my mz : nat) (c : list (list (list K))) (x y z : nat),
+  (1 <= sx)%nat -> (1 <= sy)%nat -> (1 <= sz)%nat -> (1 <= mx)%nat -> (1 <= my)%nat -> (1 <= mz)%nat ->
+  (length c = ctrl_size mz sz /\
+   forall k, (k < ctrl_size mz sz)%nat ->
+     length (nth k c []) = ctrl_size my sy /\
+     forall j, (j < ctrl_size my sy)%nat -> length (nth j (nth k c []) []) = ctrl_size mx sx) ->
+  ((x < 2 * mx - 1)%nat -> (y < my)%nat -> (z < mz)%nat ->
+     pow2 dx * ev3_at dx dy dz sx sy sz (along_x3 (refine1 sx mx) c) z y x = ev3_at dx dy dz (2 * sx) sy sz c z y x) /\
+  ((x < mx)%nat -> (y < 2 * my - 1)%nat -> (z < mz)%nat ->
+     pow2 dy * ev3_at dx dy dz sx sy sz (along_y3 (refine1 sy my) c) z y x = ev3_at dx dy dz sx (2 * sy) sz c z y x) /\
+  ((x < mx)%nat -> (y < my)%nat -> (z < 2 * mz - 1)%nat ->
+     pow2 dz * ev3_at dx dy dz sx sy sz (along_z3 (refine1 sz mz) c) z y x = ev3_at dx dy dz sx sy (2 * sz) c z y x).
+Proof. exact ffd_refine_3d. Qed.
+Print Assumptions C14_refine_preserves_3d.
 
 Theorem C14_repeated_refinement :
   forall (K : fld), is_field K -> char0 K ->
